@@ -365,3 +365,144 @@ Lemma Z_of_N_ltb (a b : N) : (Z.of_N a <? Z.of_N b) = (a <? b)%N.
 Proof. lia. Qed.
 Lemma Z_of_N_leb (a b : N) : (Z.of_N a <=? Z.of_N b) = (a <=? b)%N.
 Proof. lia. Qed.
+
+(** * State machines (gotrans2.go)
+
+    Results of definitions that can panic or contain a loop on fuel. *)
+Inductive go_res (A : Type) : Type :=
+| GoOk (a : A)
+| GoPanic (why : string)
+| GoOutOfFuel.
+Arguments GoOk {A} a.
+Arguments GoPanic {A} why.
+Arguments GoOutOfFuel {A}.
+
+Definition go_bind {A B} (r : go_res A) (f : A -> go_res B) : go_res B :=
+  match r with
+  | GoOk a => f a
+  | GoPanic w => GoPanic w
+  | GoOutOfFuel => GoOutOfFuel
+  end.
+
+Lemma go_bind_ok {A B} (a : A) (f : A -> go_res B) : go_bind (GoOk a) f = f a.
+Proof. reflexivity. Qed.
+
+(** ** The abstract lexer ([*lexing.Lexer] over its rune scanner).
+
+    State: [inp] = the runes not yet consumed, its head is the current rune
+    [x.Rune()], [[]] is [x.Ended()] (then [x.Rune()] is 0, what
+    [lexScanner.next] returns with the error); [buf] = the scanning buffer;
+    [errs] = the errors reported through [x.Errorf] / [x.CodeErrorf], before
+    [ErrorList]'s cap.  [x.Next()] pushes the current rune into the buffer and
+    moves on; on an ended lexer it is the Go panic "scanning on closed rune
+    scanner".  [x.MakeToken(t)] yields [(t, buf)] and empties the buffer.
+    Positions are not modelled.  Runes are [Z] (Go's [rune] = [int32]). *)
+Definition lexer_Rune (inp : list Z) : Z := hd 0 inp.
+Definition lexer_Ended (inp : list Z) : bool := match inp with [] => true | _ => false end.
+Definition lexer_Buffered (buf : list Z) : list N := utf8_encode (map Z.to_N buf).
+
+(** ** [strings.Fields] (on ASCII white space) and a [map[string]bool] that is
+    only built by [strutil.MakeSet] and only looked up: a list with membership. *)
+Definition strings_is_space (c : N) : bool :=
+  ((c =? 9) || (c =? 10) || (c =? 11) || (c =? 12) || (c =? 13) || (c =? 32))%N.
+Fixpoint strings_Fields_aux (cur : list N) (s : list N) : list (list N) :=
+  match s with
+  | [] => match cur with [] => [] | _ => [rev cur] end
+  | c :: r =>
+      if strings_is_space c
+      then match cur with [] => strings_Fields_aux [] r | _ => rev cur :: strings_Fields_aux [] r end
+      else strings_Fields_aux (c :: cur) r
+  end.
+Definition strings_Fields (s : list N) : list (list N) := strings_Fields_aux [] s.
+Definition strutil_MakeSet (l : list (list N)) : list (list N) := l.
+Definition go_set_mem (k : list N) (set : list (list N)) : bool := existsb (beq_bytes k) set.
+
+(** ** The abstract [io.Reader]
+
+    What a reader will do: the chunks it delivers, and whether the last chunk
+    comes together with [io.EOF] (both are allowed by the [io.Reader]
+    contract).  One [Read(buf)] returns at most [len(buf)] bytes of the next
+    chunk — a chunk longer than the buffer is delivered over several calls, an
+    empty chunk is a [(0, nil)] read — and, when the script is exhausted,
+    [(0, io.EOF)].  The only error a reader of this model returns is [io.EOF]. *)
+Record go_reader := mkReader { rd_chunks : list (list N); rd_eof_with_last : bool }.
+
+Definition rd_bytes (r : go_reader) : list N := concat (rd_chunks r).
+Definition rd_size (r : go_reader) : nat :=
+  fold_right (fun c n => (S (List.length c) + n)%nat) 0%nat (rd_chunks r).
+
+Definition io_EOF : go_error := Some (GoErr "var" "io.EOF").
+Definition io_ErrUnexpectedEOF : go_error := Some (GoErr "var" "io.ErrUnexpectedEOF").
+
+(** One [r.Read(buf)] with [len(buf) = n]: data, error, the reader after. *)
+Definition rd_read (n : nat) (r : go_reader) : list N * go_error * go_reader :=
+  match rd_chunks r with
+  | [] => ([], io_EOF, r)
+  | d :: cs =>
+      if (List.length d <=? n)%nat then
+        (d, (match cs with [] => if rd_eof_with_last r then io_EOF else None | _ => None end),
+         mkReader cs (rd_eof_with_last r))
+      else (firstn n d, None, mkReader (skipn n d :: cs) (rd_eof_with_last r))
+  end.
+
+(** The loop of [io.ReadAtLeast(r, buf, n)] with [n = len(buf)]: data read,
+    whether the reader reported [io.EOF], the chunks left.  ([n] is binary:
+    a length prefix can ask for 2^63 bytes.) *)
+Definition lenNb {A} (l : list A) : N := N.of_nat (List.length l).
+
+Fixpoint rd_fill (cs : list (list N)) (n : N) (flag : bool) : list N * bool * list (list N) :=
+  match cs with
+  | [] => ([], negb (n =? 0)%N, [])
+  | d :: cs' =>
+      if (n =? 0)%N then ([], false, cs)
+      else if (lenNb d <? n)%N then
+        match cs' with
+        | [] => if flag then (d, true, []) else
+                  let '(acc, e, r) := rd_fill cs' (n - lenNb d) flag in (d ++ acc, e, r)
+        | _ => let '(acc, e, r) := rd_fill cs' (n - lenNb d) flag in (d ++ acc, e, r)
+        end
+      else (firstn (N.to_nat n) d, false,
+            (if (lenNb d =? n)%N then cs' else skipn (N.to_nat n) d :: cs'))
+  end.
+
+(** [io.ReadFull(r, buf)] with [len(buf) = n]: [nil] when the buffer was
+    filled, [io.EOF] when nothing was read, [io.ErrUnexpectedEOF] in between. *)
+Definition io_ReadFull (r : go_reader) (n : Z) : list N * go_error * go_reader :=
+  let '(got, _, cs) := rd_fill (rd_chunks r) (Z.to_N n) (rd_eof_with_last r) in
+  (got,
+   (if (lenNb got =? Z.to_N n)%N then None
+    else match got with [] => io_EOF | _ => io_ErrUnexpectedEOF end),
+   mkReader cs (rd_eof_with_last r)).
+
+(** [io.CopyN(dst, r, n)] into a buffer: what was copied; [io.EOF] when the
+    reader ended first. *)
+Definition io_CopyN (r : go_reader) (n : Z) : list N * go_error * go_reader :=
+  let '(got, _, cs) := rd_fill (rd_chunks r) (Z.to_N n) (rd_eof_with_last r) in
+  (got, (if (lenNb got =? Z.to_N n)%N then None else io_EOF), mkReader cs (rd_eof_with_last r)).
+
+(** [io.ReadAll(r)]: everything, no error. *)
+Definition io_ReadAll (r : go_reader) : list N * go_error * go_reader :=
+  (rd_bytes r, None, mkReader [] (rd_eof_with_last r)).
+
+(** [r.Read(buf)] as the translator emits it: the buffer after the call. *)
+Definition go_fill_buf (buf got : list N) : list N := got ++ skipn (List.length got) buf.
+
+Definition go_max_alloc : Z := 281474976710656.   (* runtime.maxAlloc on linux/amd64 *)
+Definition go_make_bytes (n : Z) : list N := repeat 0%N (Z.to_nat n).
+Definition go_make_ok (n : Z) : bool := (0 <=? n) && (n <=? go_max_alloc).
+
+(** ** The abstract [io.Writer]: what has been written, and what the next
+    [Write] calls will answer ([None] / exhausted script: all bytes taken, no
+    error; [Some e]: nothing taken, error [e]). *)
+Record go_writer := mkWriter { wr_out : list N; wr_script : list go_error }.
+
+Definition wr_write (w : go_writer) (bs : list N) : Z * go_error * go_writer :=
+  match wr_script w with
+  | Some e :: s => (0, Some e, mkWriter (wr_out w) s)
+  | None :: s => (go_len bs, None, mkWriter (wr_out w ++ bs) s)
+  | [] => (go_len bs, None, mkWriter (wr_out w ++ bs) [])
+  end.
+
+(** [binary.LittleEndian.PutUint64(buf, v)]: the first 8 bytes of [buf]. *)
+Definition binary_LE_PutUint64 (buf : list N) (v : Z) : list N :=
+  if 8 <=? go_len buf then le64 (Z.to_N (wrap_u64 v)) ++ skipn 8 buf else go_junk buf.
